@@ -1678,8 +1678,8 @@ class ThroughputCalculator:
 
             # Calculate throughput based on service time if the runner does not provide one, otherwise use it as is and
             # only transform the values into the expected structure.
-            first_sample = current_samples[0]
-            if first_sample.throughput is None:
+            # Samples of failed requests never carry a throughput, also not for runners that usually provide one.
+            if all(sample.throughput is None for sample in current_samples):
                 task_throughput = self.calculate_task_throughput(task, current_samples, bucket_interval_secs)
             else:
                 task_throughput = self.map_task_throughput(current_samples)
@@ -1752,6 +1752,8 @@ class ThroughputCalculator:
     def map_task_throughput(self, current_samples):
         throughput = []
         for sample in current_samples:
+            if sample.throughput is None:
+                continue
             throughput.append(
                 (
                     sample.absolute_time,
